@@ -138,6 +138,23 @@ def handle (op : String) (args : List PyVal) : Option (List PyVal) :=
   | "eventtext", [.dict base, .str msg] => do
     let b ← decodeBase base
     pure [ofStr (writeEventText b msg.toList)]
+  | "logmsg", [arg, oj, js, .str strd, .bool enabled, .bool isWarning, .bool seen] => do
+    -- add_level.log_for_level: what reaches `_log`; the three serialisers' results on this message are parameters
+    let optText : PyVal → Option (Option Str) := fun v => match v with
+      | .none => some none
+      | .str t => some (some t.toList)
+      | _ => none
+    let o ← optText oj
+    let j ← optText js
+    let m ← (match arg with
+      | .dict kvs => (toJsonD kvs).map Msg.dict
+      | .list [.str "b", .str t] => some (Msg.bytes t.toList)
+      | .str t => some (Msg.text t.toList)
+      | _ => none)
+    match logForLevel (fun _ => o) (fun _ => j) (fun _ => strd.toList) enabled isWarning (fun _ => seen) m with
+    | some (.text t) => pure [ofStr t]
+    | some _ => none
+    | none => pure [.none]
   | "url", [.str s] =>
     let t := s.toList
     some [ofStr (if isInfix Gen.Sanitise.urlGuard t then redactUrl t else t)]
